@@ -2,7 +2,8 @@
 Kruskal forest weight, triangle and k-core counts, existence of a maximal independent set of the reported size, max-flow =
 min-cut, maximum bipartite matching = minimum vertex cover); the applications are built from the working tree and run on
 generated small graphs with every selectable algorithm variant and 1-8 threads; what they print is parsed and TLC judges every
-result (TraceApps.tla).  PageRank (floating point accuracy) and the distributed applications are not decided here."""
+result (TraceApps.tla).  The distributed bfs / sssp / cc / k-core applications run under mpirun (1-4 hosts x partition policies x Sync/Async)
+and their complete per-node output is judged the same way.  PageRank (floating point accuracy) is not decided here."""
 import os, re, json, random, shutil, subprocess, concurrent.futures as cf
 from vlib.common import *
 from vlib import tv, grfile
@@ -10,6 +11,74 @@ from vlib import tv, grfile
 LEVEL = "model_checking"
 SP = os.path.join(SPECS, "apps")
 APPS = ["bfs", "sssp", "cc", "boruvka", "triangles", "kcore", "indset", "preflowpush", "mcm"]
+DAPPS = ["bfs-push", "bfs-pull", "sssp-push", "sssp-pull", "cc-push", "cc-pull", "kcore-push", "kcore-pull"]
+MPIRUN = ["mpirun", "--allow-run-as-root", "--oversubscribe", "--bind-to", "none"]
+
+
+def dbin(name):
+    return os.path.join(BUILD, "D", "bin", name)
+
+
+def transpose(adj):
+    t = [[] for _ in adj]
+    for s_, a in enumerate(adj):
+        for d, w in a:
+            t[d].append([s_, w])
+    return t
+
+
+def run_dist(i, scratch, adj, app, hosts, policy, exe, threads, extra):
+    """one distributed run; returns (rc, per-node values or None, tail)"""
+    d = os.path.join(scratch, "d%d" % i)
+    os.makedirs(os.path.join(d, "out"), exist_ok=True)
+    grfile.write_gr(os.path.join(d, "g.gr"), adj, 4)
+    grfile.write_gr(os.path.join(d, "g.tgr"), transpose(adj), 4)
+    args = MPIRUN + ["-n", str(hosts), dbin("dapp-" + app), os.path.join(d, "g.gr"), "--graphTranspose=" + os.path.join(d, "g.tgr"), "--partition=" + policy,
+                     "--exec=" + exe, "--output", "--outputLocation=" + os.path.join(d, "out"), "--runs=1", "-t=%d" % threads] + extra
+    try:
+        p = subprocess.run(args, stdout=subprocess.PIPE, stderr=subprocess.STDOUT, timeout=180, env=dict(os.environ, GALOIS_DO_NOT_BIND_THREADS="1"))
+        rc, out = p.returncode, p.stdout.decode("utf-8", "replace")
+    except subprocess.TimeoutExpired:
+        rc, out = 124, "timeout"
+    vals = {}
+    dup = False
+    for f in sorted(os.listdir(os.path.join(d, "out"))):
+        for line in open(os.path.join(d, "out", f)):
+            t = line.split()
+            if len(t) >= 2:
+                if int(t[0]) in vals:
+                    dup = True
+                vals[int(t[0])] = int(float(t[1]))
+    shutil.rmtree(d, ignore_errors=True)
+    ok = rc == 0 and not dup and sorted(vals) == list(range(len(adj)))
+    return rc, ([norm(vals[v]) if app.startswith(("bfs", "sssp")) else vals[v] for v in range(len(adj))] if ok else None), out[-300:]
+
+
+def dist_jobs(rng, thorough):
+    jobs = []
+    ng = 6 if thorough else 2
+    pols = ["oec", "iec", "hovc", "hivc", "cvc", "cvc-iec", "ginger-o", "fennel-o", "sugar-o"] if thorough else ["oec", "iec", "cvc", "hivc"]
+    for g in range(ng):
+        adj = gen_directed(rng)
+        while len(adj) < 3:
+            adj = gen_directed(rng)
+        for app in ("bfs-push", "bfs-pull", "sssp-push", "sssp-pull"):
+            for hosts in (1, 2, 3, 4):
+                for pol in (pols if hosts > 1 else ["oec"]):
+                    for exe in ("Sync", "Async"):
+                        src = rng.randrange(len(adj))
+                        jobs.append((("dd", g), adj, app, hosts, pol, exe, 1 + rng.randrange(3), ["--startNode=%d" % src], dict(kind=app.split("-")[0], src=src)))
+        adj = gen_symmetric(rng, simple=True, weighted=False)
+        while len(adj) < 3:
+            adj = gen_symmetric(rng, simple=True, weighted=False)
+        for app in ("cc-push", "cc-pull", "kcore-push", "kcore-pull"):
+            for hosts in (1, 2, 3, 4):
+                for pol in (pols if hosts > 1 else ["oec"]):
+                    for exe in ("Sync", "Async"):
+                        kk = 1 + rng.randrange(3)
+                        extra = ["--symmetricGraph"] + (["--kcore=%d" % kk] if app.startswith("kcore") else [])
+                        jobs.append((("ds", g), adj, app, hosts, pol, exe, 1 + rng.randrange(3), extra, dict(kind=app.split("-")[0], kk=kk, src=0)))
+    return jobs
 
 
 def gen_directed(rng, zero_ok=True):
@@ -206,6 +275,23 @@ def run(ev, vd):
         return key, app, parse(app, rec, rc, out)
     with cf.ThreadPoolExecutor(max_workers=NCPU) as ex:
         results = list(ex.map(do, list(enumerate(jobs))))
+    # distributed versions: hosts x partition policy x execution model; the complete output of all hosts is judged
+    make(*[dbin("dapp-" + a) for a in DAPPS])
+    djobs = dist_jobs(rng, tier() == "thorough")
+    for key, adj, *_ in djobs:
+        graphs.setdefault(key, adj)
+
+    def ddo(ij):
+        i, (key, adj, app, hosts, pol, exe, threads, extra, rec) = ij
+        rc, vals, tail = run_dist(i, scratch, adj, app, hosts, pol, exe, threads, extra)
+        r = dict(rec, k="dist", variant="%s/%dhosts/%s/t%d" % (exe, hosts, pol, threads), hosts=hosts, policy=pol, failed=0 if vals is not None else 1, rc=rc)
+        if vals is not None:
+            r["vals"] = vals
+        else:
+            r["tail"] = tail
+        return key, app, r
+    with cf.ThreadPoolExecutor(max_workers=4) as ex:
+        results += list(ex.map(ddo, list(enumerate(djobs))))
     shutil.rmtree(scratch, ignore_errors=True)
     tr = os.path.join(BUILD, "tmp", "apps.ndjson")
     with open(tr, "w") as f:
@@ -223,7 +309,7 @@ def run(ev, vd):
         rec = json.loads(line)
         a = rec.get("app", "graph")
         by[a] = by.get(a, 0) + 1
-        ev.distinct(line, nontrivial="/t1" not in rec.get("variant", "/t1"))
+        ev.distinct(line, nontrivial="/t1" not in rec.get("variant", "/t1") or rec.get("hosts", 1) > 1)
         if i % 211 == 7:
             ev.sample({k: v for k, v in rec.items() if k != "edges"})
     ev.cov["runs_by_app"] = by
@@ -236,12 +322,14 @@ def run(ev, vd):
             j -= 1
         gr = json.loads(lines[j])
         algo = rec.get("variant", "").split("/")[0]
+        if rec.get("k") == "dist":
+            algo = "%s/%s" % (rec.get("variant", "").split("/")[0], rec.get("policy"))
         sig = dict(component="app:" + rec.get("app", "?"), op="crash" if rec.get("failed") and rec.get("rc") not in (0, None) else "result", algo=algo)
         vd.violation(sig, "%s (%s) on a %d-node graph: %s" % (rec.get("app"), rec.get("variant"), gr["n"], lines[g][:400]), dict(record=rec, graph=gr))
     ev.assumptions += [
         "results are observed through what the applications print (one reported node per BFS/SSSP run, counts, weights, cardinalities); the independent set itself is not printed, so only 'some maximal independent set has this size' plus the application's own verification is decided",
         "PageRank (pull / push) is not decided: comparing floating-point ranks within a tolerance is outside what a TLA+ specification can express usefully",
-        "the distributed applications are not run here (their building blocks are decided by C17-C19); betweenness centrality, clustering, k-truss, gmetis, matrix completion, points-to are out of scope",
+        "distributed bfs/sssp/cc/k-core (push and pull) run under mpirun on 1-4 hosts with several partition policies, Sync and Async; distributed pagerank, betweenness centrality, triangle counting and the CPU applications clustering, k-truss, gmetis, matrix completion, points-to are out of scope",
         "graphs are small (<= 9 nodes): the oracle is evaluated by TLC; thread schedules are sampled by repeated real runs"]
     ev.cov["engines"] = ["free", "tv"]
 
